@@ -98,6 +98,7 @@ type runState struct {
 	next int
 	// concurrent: several clients translate at once, statements can only be attributed by context
 	concurrent bool
+	promVals   int // values of plain PromQL selectors compared with the samples served (reach probe)
 	bigSeen    int // integer attributes of JSON-stored OTLP spans compared (reach probe)
 }
 
@@ -409,6 +410,9 @@ func (st *runState) finish(ri *simcheck.RunInfo, sim *simrt.Sim, t0 time.Time, t
 		}
 		st.checkDocument(r, add)
 	}
+	if st.promVals > 0 {
+		ri.Probes["promql-selector-value-compared"] += st.promVals
+	}
 	if st.bigSeen > 0 {
 		ri.Probes["otlp-json-span-int-attribute-compared"] += st.bigSeen
 	}
@@ -505,6 +509,8 @@ func (st *runState) paths() []string {
 	}
 	return p
 }
+
+var rePromSelector = regexp.MustCompile(`^[a-zA-Z_:][a-zA-Z0-9_:]*(\{[^{}]*\})?$|^\{[^{}]*\}$`)
 
 // checkDocument is the C15 oracle: a 200 response of a log/metric query endpoint served without a
 // database or client fault must be one JSON document of the documented shape that contains
@@ -907,7 +913,12 @@ func (st *runState) checkMatrix(r *reqRec, d map[string]any, add func(p, oracle,
 				add("C15", "wrong-shape", "sample value is not a string", fmt.Sprintf("req%d %s sample=%v", r.ID, r.Path, v))
 				return
 			}
-			if (rq.Kind == "query_range" || rq.Kind == "query") && passThroughMetric(rq.Query) && oneData && served[k] != nil && !served[k][sv] {
+			// (a PromQL query that is nothing but a selector returns, at every instant, a sample of the series as it was served)
+			promSel := (rq.Kind == "prom_range" || rq.Kind == "prom_instant") && !rq.Mutated && rePromSelector.MatchString(strings.TrimSpace(rq.Query))
+			if promSel && served[k] != nil {
+				st.promVals++
+			}
+			if (((rq.Kind == "query_range" || rq.Kind == "query") && passThroughMetric(rq.Query) && oneData) || promSel) && served[k] != nil && !served[k][sv] {
 				if f, err := strconv.ParseFloat(sv, 64); err != nil || !served[k][strconv.FormatFloat(f, 'f', -1, 64)] {
 					add("C15", "value-altered", "a numeric value is not rendered as it was served",
 						fmt.Sprintf("req%d %s: series %s carries %q; values served for that series: %v", r.ID, r.Path, k, sv, keysOfBool(served[k])))
